@@ -87,7 +87,7 @@ def _wrapped(s):
     return len(s) >= 2 and s[0] == s[-1] and s[0] in "\"'"
 
 
-_desc_text = st.one_of(st.sampled_from(["Fedora 20", "Red Hat Enterprise Linux 7.0", "x", "it's", 'say "hi" there', 'Fedora "Rawhide"', "'tis Fedora", 'a"', '"x', "'", '"', "\"a'", 'Rock \'n\' Roll "7"']),
+_desc_text = st.one_of(st.sampled_from(["Fedora 20", "Red Hat Enterprise Linux 7.0", "x", "it's", 'say "hi" there', 'Fedora "Rawhide"', "'tis Fedora", 'a"', '"x', "'", '"', "\"a'", "#1 Community Respin 21", "# x", ";x", "[x]", "#", "1.5", "ALL", "x86_64", 'Rock \'n\' Roll "7"']),
                        gen.name_text, st.text(st.sampled_from(list("ab \"'")), min_size=1, max_size=5)).map(
     lambda s: s.strip()).filter(lambda s: len(s) > 0 and not _wrapped(s) and "\n" not in s and "\r" not in s and len(s.splitlines()) == 1)
 disc_strategy = st.fixed_dictionaries({
